@@ -170,6 +170,9 @@ pub fn accesses(op: &Op) -> Vec<Acc> {
         Op::CtxCurrent { ctx } => vec![Excl(*ctx)],
         Op::RootFromCtx { slot, ctx, .. } => vec![Excl(*slot), Read(*ctx)],
         Op::Pop { into: Some(s) } | Op::Collect { into: Some(s) } => vec![Excl(*s)],
+        Op::EventNew { ev, .. } => vec![Excl(*ev)],
+        Op::AddEventFrom { slot: Some(s), ev } => vec![Read(*s), Excl(*ev)],
+        Op::AddEventFrom { slot: None, ev } => vec![Excl(*ev)],
         Op::UnwindScope { slot } | Op::ScopeBurst { slot, .. } | Op::Twin { slot: Some(slot), .. } => vec![Read(*slot)],
         Op::Push { slot, set } => vec![Read(*slot), Read(*set)],
         Op::ToRecords { set, .. } => vec![Read(*set)],
@@ -309,6 +312,7 @@ enum SlotV {
     Set(LocalSpans),
     Ctx(Option<SpanContext>),
     Task(crate::tasks::TaskBox),
+    Event(Event),
 }
 
 enum LocalH {
@@ -583,6 +587,14 @@ pub fn exec_op(ctx: &mut ThreadCtx, idx: usize, op: OpRef, o: &Op, inner: &[Op])
             Ret::None
         }
         Op::AddEvent { slot, n } => {
+            if *n > 0 && op % 5 == 0 {
+                // the deprecated entry point (same semantics: the closure builds the event now)
+                #[allow(deprecated)]
+                Event::add_to_parent(event_name(case.str_seed, op), slot_span(&sh, *slot), || {
+                    closure_body(cp, idx, op, *n, inner).into_iter().map(|(k, v)| (k.into(), v.into())).collect::<Vec<(std::borrow::Cow<'static, str>, std::borrow::Cow<'static, str>)>>()
+                });
+                return Ret::None;
+            }
             let mut ev = Event::new(event_name(case.str_seed, op));
             if *n > 0 {
                 ev = ev.with_properties(|| closure_body(cp, idx, op, *n, inner));
@@ -643,6 +655,13 @@ pub fn exec_op(ctx: &mut ThreadCtx, idx: usize, op: OpRef, o: &Op, inner: &[Op])
             Ret::None
         }
         Op::LocalAddEvent { n } => {
+            if *n > 0 && op % 5 == 0 {
+                #[allow(deprecated)]
+                Event::add_to_local_parent(event_name(case.str_seed, op), || {
+                    closure_body(cp, idx, op, *n, inner).into_iter().map(|(k, v)| (k.into(), v.into())).collect::<Vec<(std::borrow::Cow<'static, str>, std::borrow::Cow<'static, str>)>>()
+                });
+                return Ret::None;
+            }
             let mut ev = Event::new(event_name(case.str_seed, op));
             if *n > 0 {
                 ev = ev.with_properties(|| closure_body(cp, idx, op, *n, inner));
@@ -708,6 +727,23 @@ pub fn exec_op(ctx: &mut ThreadCtx, idx: usize, op: OpRef, o: &Op, inner: &[Op])
             if let Err(p) = r {
                 if !p.is::<HarnessUnwind>() {
                     std::panic::resume_unwind(p);
+                }
+            }
+            Ret::None
+        }
+        Op::EventNew { ev, n } => {
+            let mut e = Event::new(event_name(case.str_seed, op));
+            if *n > 0 {
+                e = e.with_properties(|| closure_body(cp, idx, op, *n, inner));
+            }
+            *slot_mut(&sh, *ev) = SlotV::Event(e);
+            Ret::None
+        }
+        Op::AddEventFrom { slot, ev } => {
+            if let SlotV::Event(e) = std::mem::replace(slot_mut(&sh, *ev), SlotV::Empty) {
+                match slot {
+                    Some(s) => slot_span(&sh, *s).add_event(e),
+                    None => LocalSpan::add_event(e),
                 }
             }
             Ret::None
